@@ -147,6 +147,9 @@ def gen_persist(r, ncases, maxlen=60):
     for k in range(2 if ncases < 100 else 10):
         ops += ["#case ps delsave", "ps.open", f"ps.delsave trials={r.pick([6, 10])} seed={r.range(1, 99)} hold_ms={r.pick([15, 25, 40])}"]
     busy_left = 4 if ncases < 100 else 40   # each costs its hold time
+    for _ in range(2 if ncases < 1000 else 8):
+        # several controllers look their stored entries up again and again, each at its own pace
+        ops += ["#case ps lookups", "ps.open", f"ps.lookups workers={r.pick([2, 3, 4, 6])} ms={3000 if ncases < 1000 else 6000} seed={r.range(1, 99)}"]
     for _ in range(2 if ncases < 1000 else 10):
         # a database that is mostly unused pages when a controller starts up (Init) under a held lock, saves queued behind it
         ops += ["#case ps sparse", "ps.open", f"ps.initsparse rounds=2 savers={r.pick([3, 4, 5])} hold_ms={r.pick([40, 60, 90])} n=24"]
